@@ -329,7 +329,10 @@ pub fn property() -> Property {
         rule: "cases are byte tapes generated by proptest (uniform bytes, fixed seed) decoded by constructive generators into labelled classes, plus two exhaustively enumerated integer grids (cross on {-1,0,1}^6, determine_side / areas on {-2..2}^6). \
 metric: non-trivial when the vector whose length is taken has >= 2 non-zero lanes and a != b; surface (reflected / refracted / face_forward): when v and n each have >= 2 non-zero lanes and v.n != 0; \
 angle: when neither operand is axis-aligned; side/area: when the three points are pairwise distinct and not collinear-with-an-axis (determinant of the general 3x3 form with >= 4 non-zero products) or exactly collinear; \
-cross: when a x b != 0 and each operand has >= 2 non-zero lanes; slerp: when the factor is not 0 or 1 and |a| != |b|; homogenise: when w is not 0 or 1 and x,y,z are non-zero; distinct = distinct consumed tape prefix per check",
+cross: when a x b != 0 and each operand has >= 2 non-zero lanes; slerp: when the factor is not 0 or 1 and |a| != |b|; homogenise: when w is not 0 or 1 and x,y,z are non-zero; \
+scale-* (extreme-magnitude regime, f64 / f32): operands are base vectors of moderate length (1/2 <= |v| <= 2^8 sqrt N; random, L * rational unit vector, anisotropic lanes, exactly / nearly (anti)parallel and perpendicular pairs) multiplied exactly by 2^k with k stratified over 0, mild, middle, extreme and the limits +-48 (f32) / +-480 (f64) (+-120 / +-1000 for homogenisation), alike, one only, opposite or independent per operand; non-trivial when at least one exponent is non-zero and the unscaled non-triviality rule of the function holds; \
+slerp-edge: directions exactly parallel, log-uniform small angle down to TH_DEF/16, ordinary, next to pi, exactly antiparallel; lengths in [0.5, 2] times 2^k (none, +-4, extreme alike, extreme independent); factors 0, 1, 1/2, 2^-4..2^-20 next to 0 / 1, inside and outside [0, 1]; non-trivial when the result is finite and |from|, |to| differ from each other and from 1 by more than 1e-3 relative; \
+distinct = distinct consumed tape prefix per check",
         assumptions: &[
             "rustc and the proptest runner/shrinker are trusted",
             "oracles are textbook formulas on plain arrays in the oracle domain (Rat for Rat, f64 for f64 and f32): sum of products, Levi-Civita cross product, Leibniz 3x3 determinant for the 2D side test, Kahan's 2*atan2(|a^-b^|, |a^+b^|) for angles, Gram-Schmidt frame for slerp; none calls the vek function it judges",
@@ -339,7 +342,10 @@ cross: when a x b != 0 and each operand has >= 2 non-zero lanes; slerp: when the
             "float tolerances are k * eps(S) * scale with k and scale stated at each comparison (scale = magnitude bounding the rounding of that operation; acos-based results are widened by the conditioning 1/sin(angle)); max observed error / tolerance is recorded in the evidence",
             "try_normalized: None is demanded on the exact zero vector, Some(unit, parallel) whenever |v| >= 1e-3; for 0 < |v| < 1e-3 (incl. denormal lengths) nothing is asserted. is_normalized / is_approx_zero / is_magnitude_close_to are asserted only on clear-cut inputs (exact or within 2 eps relative for `true`, off by >= 1e-3 relative for `false`)",
             "face_forward at reference.incident == 0 (and, in floats, when the sign of the dot product is within rounding of 0): only `result is v or -v` is asserted. refracted in floats: nothing is asserted when |k| is within rounding of 0 (the branch is decided exactly in Rat)",
-            "slerp precondition: endpoints non-zero (0.1 <= |.| <= 10) and neither parallel nor antiparallel (angle in [0.05, pi-0.05]); factor in [-0.5, 1.5]",
+            "slerp-Vec3-* precondition: endpoints non-zero (0.1 <= |.| <= 10) and neither parallel nor antiparallel (angle in [0.05, pi-0.05]); factor in [-0.5, 1.5]",
+            "extreme magnitudes (scale-*): asserted only where every operand alone is still normalisable and every degree-2 quantity of the property is representable: |k| <= 48 (f32) / 480 (f64) on base lengths in [1/2, 2^8 sqrt N], so |v|^2, a_i b_i and (a_i - b_i)^2 stay normal (f32 2^-98..2^120, f64 2^-962..2^990); cross uses half that range per operand (its derived clauses are of degree 3 and 4); homogenisation only forms quotients and is exercised over 2^+-120 / 2^+-1000 with the quotient exponent bounded by 100 / 900. Overflow or complete underflow of |v|^2 itself (|v| > ~2^63 / 2^511 or < ~2^-63 / 2^-511) is NOT asserted: the documented formulas (v / sqrt(v.v)) lose all meaning there in any implementation that squares. Oracles are evaluated at the unscaled magnitude and multiplied by the exact power of two; every tolerance is k * eps * (scaled magnitude) plus 8 subnormal ulps (gradual underflow of one product of two tiny lanes); the scaling itself is exact: every scaled lane is zero or a normal number (debug-asserted in the harness)",
+            "extreme magnitudes, what is deliberately left out: reflected with a scaled *normal* (the property states it for the surface normal; only the incident vector is scaled), refracted (stated for unit vectors only; instead eta is drawn from 2^-12..2^4 and the incidence angle from near-normal / grazing Pythagorean triples), Rat (2^k scaling cannot leave its range; the rational code paths are already exact at unit scale), try_normalized between 0 and 1e-3 (Some(unit) or None both accepted, as at unit scale), `false` answers of the approximate predicates at tiny scale (absolute epsilon leg of RelativeEq)",
+            "slerp-edge conditioning (documented GLM formula): the computed cosine is within 8 eps of the true one, so (i) end points are hit within 8 eps |from| (factor 0) / 8 eps max(|from|, |to|) (factor 1: one rounding of lerp's `to - from`) at EVERY angle with sin(alpha') != 0, (ii) |result| = lerp(|from|, |to|, t) within (8 |t1 t2| + 4 (|t1| + |t2|) + 2 (|1-t| + |t|) alpha / sin(alpha) + 8) eps |L| + 4 (|1-t| + |t|) eps max(|from|, |to|), where t1, t2 are the exact weights: bounded for small angles, growing like 1/sin^2 only next to pi, (iii) the full reference within 32 eps for angles <= 0.06 and 32 / sin^2 otherwise (asserted while that is <= 2^-6 / eps). The formula is 0/0 exactly when the computed cosine rounds to 1, possible only for theta^2 / 2 <= 8.25 eps (theta <= 1.40e-3 in f32, 6.05e-8 in f64): inside that zone and its mirror image at pi a non-finite result is accepted and nothing is asserted for the case, a finite result must satisfy every clause; outside it a non-finite result is reported. Within sqrt(512 eps) of pi only the end points are asserted (intermediate directions are genuinely ill-conditioned there)",
         ],
         checks,
         max_discard_frac: 0.1,
